@@ -11,7 +11,7 @@
      cuts P inp cs               inp = piece_1 ++ piece_2 ++ ..., |piece_i| = |chunk_i|, and P piece_i rest_i chunk_i
                                  holds for every chunk returned with err == nil (every non-final chunk) *)
 From Coq Require Import List NArith ZArith Bool.
-From Verif Require Import Common.GoStr C26.Model C26.Spec C26.Spec2 C26.Proof C26.Proof2 C26.Proof3 C26.Proof4 C26.Proof5 C26.Proof6.
+From Verif Require Import Common.GoStr C26.Model C26.Spec C26.Spec2 C26.Proof C26.Proof2 C26.Proof3 C26.Proof4 C26.Proof5 C26.Proof6 C26.Wrapper C26.ProofW.
 Import ListNotations.
 Open Scope Z_scope.
 
@@ -280,3 +280,38 @@ Proof.
   split; [reflexivity|]. split; [vm_compute; reflexivity|]. split; [discriminate|].
   split; [repeat constructor|]. split; [vm_compute; reflexivity|]. split; [vm_compute; discriminate|vm_compute; reflexivity].
 Qed.
+
+(* ---- the reader as its consumers call it: the method Globals.ReadMultiline (base/global.go), driven by
+   EvalReader / ReadParseEvalPrint (also cmd EvalFile and -m -w, the REPL, the debugger); Wrapper.v ----
+   gread_stream true  : the method that exists (drops the error value, returns (str, firstToken) as they are)
+   gread_stream false : the variant answering "", -1 to every error, io.EOF included *)
+
+(* the consumers receive exactly the chunks the reader returned, also the one that comes back together with io.EOF
+   (last line without final newline) or io.ErrUnexpectedEOF *)
+Theorem C26_wrapper_delivers_every_chunk : forall allc v1 rl,
+  gread_stream true allc v1 rl = (map view (fst (read_stream allc v1 rl)), snd (read_stream allc v1 rl)).
+Proof. exact gread_stream_keep. Qed.
+Print Assumptions C26_wrapper_delivers_every_chunk.
+
+(* hence losslessness holds for what EvalReader / EvalFile evaluate, for every byte sequence - whether or not its
+   last byte is a newline *)
+Theorem C26_lossless_through_wrapper : forall inp allc v1,
+  bare_hash RCode inp = false ->
+  exists ws, gread_stream true allc v1 (split_nl inp) = (ws, Done) /\ concat (map fst ws) = hb_rewrite RCode inp.
+Proof. exact wrapper_lossless. Qed.
+Print Assumptions C26_lossless_through_wrapper.
+
+Theorem C26_lossless_go_through_wrapper : forall inp allc v1,
+  hash_in_code RCode inp = false ->
+  exists ws, gread_stream true allc v1 (split_nl inp) = (ws, Done) /\ concat (map fst ws) = inp.
+Proof. exact wrapper_lossless_go. Qed.
+Print Assumptions C26_lossless_go_through_wrapper.
+
+(* the variant that treats io.EOF like a failed read loses the last statement of a file without final newline:
+   "a := 1" is delivered as nothing at all *)
+Theorem C26_wrapper_dropping_eof_chunk_refuted :
+  exists inp, hash_in_code RCode inp = false /\
+    gread_stream false true false (split_nl inp) = ([], Done) /\
+    fst (gread_stream true true false (split_nl inp)) = [(inp, 0)].
+Proof. exists w_witness. exact wrapper_dropping_refuted. Qed.
+Print Assumptions C26_wrapper_dropping_eof_chunk_refuted.
